@@ -39,6 +39,17 @@ type C19Case struct {
 	Via      string          `json:"via,omitempty"`
 	Repeat   int             `json:"repeat"`  // how often the multiset is cycled in the long history
 	Workers  int             `json:"workers"` // concurrent part
+	// Modes: how each route's function answers (by route id): 0 raw bytes, 1 WriteEntity,
+	// 2 WriteHeaderAndEntity, 3 WriteErrorString, 4 WriteServiceError, 5 WriteAsJson
+	Modes map[string]int `json:"modes,omitempty"`
+}
+
+// c19Entity is what the entity-writing route functions answer with.
+type c19Entity struct {
+	Route  string
+	Sel    string
+	Params string
+	Tags   string
 }
 
 func genC19(t *rapid.T, concurrent bool) C19Case {
@@ -50,6 +61,12 @@ func genC19(t *rapid.T, concurrent bool) C19Case {
 		c.Table.Services[si].NFilters = rapid.IntRange(0, 2).Draw(t, "svcfilters")
 		for ri := range c.Table.Services[si].Routes {
 			c.Table.Services[si].Routes[ri].NFilters = rapid.IntRange(0, 2).Draw(t, "routefilters")
+			if m := rapid.SampledFrom([]int{0, 0, 0, 1, 1, 1, 2, 3, 4, 5}).Draw(t, "writemode"); m != 0 {
+				if c.Modes == nil {
+					c.Modes = map[string]int{}
+				}
+				c.Modes[c.Table.Services[si].Routes[ri].ID] = m
+			}
 		}
 	}
 	c.NCF = rapid.IntRange(0, 7).Draw(t, "ncf")
@@ -64,6 +81,22 @@ func genC19(t *rapid.T, concurrent bool) C19Case {
 			r.Path = "/"
 		}
 		r.Headers = append(r.Headers, model.H{K: "X-Tag", V: "t" + strconv.Itoa(i)})
+		if rapid.IntRange(0, 5).Draw(t, "richaccept") == 0 {
+			// a longer Accept header than gen.Request writes: three to five ranges, some with
+			// q-values (also unparsable ones); what a route that writes an entity negotiates on
+			var parts []string
+			for k, nr := 0, rapid.IntRange(3, 5).Draw(t, "naccept"); k < nr; k++ {
+				parts = append(parts, rapid.SampledFrom(append([]string{"*/*", "text/html"}, gen.MediaPool...)).Draw(t, "accmedia")+
+					rapid.SampledFrom([]string{"", "", "", ";q=0.9", ";q=0.5", "; q=0.1", ";q=abc", ";level=1"}).Draw(t, "accq"))
+			}
+			var hs []model.H
+			for _, h := range r.Headers {
+				if h.K != "Accept" {
+					hs = append(hs, h)
+				}
+			}
+			r.Headers = append(hs, model.H{K: "Accept", V: strings.Join(parts, rapid.SampledFrom([]string{",", ", "}).Draw(t, "accsep"))})
+		}
 		switch rapid.IntRange(0, 5).Draw(t, "reqflavour") {
 		case 0:
 			if c.CORS || c.Options {
@@ -111,8 +144,23 @@ func buildC19(c C19Case) (*restful.Container, interface{}) {
 			doc = sr.Doc()
 		}
 		resp.Header().Set("X-Route", id)
-		resp.WriteHeader(200)
-		fmt.Fprintf(resp, "route=%s sel=%s doc=%s params=%s tag=%v stag=%v rtag=%v", id, sel, doc, strings.Join(ps, ","), req.Attribute("tag"), req.Attribute("stag"), req.Attribute("rtag"))
+		text := fmt.Sprintf("route=%s sel=%s doc=%s params=%s tag=%v stag=%v rtag=%v", id, sel, doc, strings.Join(ps, ","), req.Attribute("tag"), req.Attribute("stag"), req.Attribute("rtag"))
+		ent := c19Entity{Route: id, Sel: sel, Params: strings.Join(ps, ","), Tags: fmt.Sprint(req.Attribute("tag"), req.Attribute("stag"), req.Attribute("rtag"))}
+		switch c.Modes[id] {
+		case 1:
+			resp.WriteEntity(ent)
+		case 2:
+			resp.WriteHeaderAndEntity(201, ent)
+		case 3:
+			resp.WriteErrorString(409, text)
+		case 4:
+			resp.WriteServiceError(422, restful.ServiceError{Code: 422, Message: text})
+		case 5:
+			resp.WriteAsJson(ent)
+		default:
+			resp.WriteHeader(200)
+			fmt.Fprint(resp, text)
+		}
 	}
 	var pan interface{}
 	var ct *restful.Container
@@ -233,6 +281,9 @@ func checkC19(c C19Case, partName string) (vs []*Violation) {
 	}
 	if c.Encoding {
 		labels = append(labels, "encoding")
+	}
+	if len(c.Modes) > 0 {
+		labels = append(labels, "routes_writing_entities_or_errors")
 	}
 	compare := func(mode string, i, pos int, got string) {
 		if got != ref[i] && len(vs) < 10 {
